@@ -357,6 +357,8 @@ struct Tally {
 struct Cls {
     a_later: bool,
     b_later: bool,
+    /// a or b reads a wall-clock time repeated by a fold that crosses midnight
+    fold_x_midnight: bool,
     near_limit: bool,
     /// a transition that moves the wall clock by more than 24 h lies between a and b
     wide: bool,
@@ -391,7 +393,9 @@ impl<'a> Ck<'a> {
         };
         let calendar = li < T::EXACT_FROM;
         // input-derived class suffixes
-        let vsfx: &str = if calendar && (cls.a_later || cls.b_later) {
+        let vsfx: &str = if calendar && cls.fold_x_midnight {
+            ":a-or-b-in-fold-that-straddles-midnight,largest>=day"
+        } else if calendar && (cls.a_later || cls.b_later) {
             t.z_known_class_cases.fetch_add(1, Relaxed);
             ":a-or-b-in-fold-later-side,largest>=day"
         } else if calendar && cls.wide {
@@ -760,6 +764,10 @@ fn select_transitions(z: &rtz::Zone, thorough: bool, is_rep: bool) -> Vec<usize>
 struct ZVal {
     z: Zoned,
     later: bool,
+    /// the value's wall-clock reading lies in the repeated interval of a fold
+    /// whose repeated interval crosses midnight (e.g. America/St_Johns 1987:
+    /// 00:01 -> 23:01 of the previous civil day)
+    fold_x_midnight: bool,
     near_limit: bool,
     piece: usize,
 }
@@ -787,7 +795,23 @@ fn mk_zoned(r: &Report, t: &Tally, pair: &Pair, taint: &[(i64, i64)], x: i128) -
                 return None;
             }
             let near_limit = x - ts_min < 3 * DAY_NS || ts_max - x < 3 * DAY_NS;
-            Some(ZVal { z, later: later_side_of_fold(&pair.model, x), near_limit, piece: pair.model.piece_index_at(floor_sec(x)) })
+            let k = pair.model.piece_index_at(floor_sec(x));
+            let civil = floor_sec(x) + mo as i64;
+            let mut fxm = false;
+            for j in [k, k + 1] {
+                if j == 0 || j >= pair.model.pieces.len() {
+                    continue;
+                }
+                let (o_prev, o_new) = (off(&pair.model, j - 1), off(&pair.model, j));
+                let tt = pair.model.pieces[j].start;
+                if o_prev > o_new {
+                    let (lo, hi) = (tt + o_new, tt + o_prev);
+                    if lo.div_euclid(86_400) != (hi - 1).div_euclid(86_400) && civil >= lo && civil < hi {
+                        fxm = true;
+                    }
+                }
+            }
+            Some(ZVal { z, later: later_side_of_fold(&pair.model, x), fold_x_midnight: fxm, near_limit, piece: k })
         }
     }
 }
@@ -870,7 +894,7 @@ fn main() {
                         }
                         let (p0, p1) = (a.piece.min(b.piece), a.piece.max(b.piece));
                         let wide = (p0 + 1..=p1).any(|k| (off(&pair.model, k) - off(&pair.model, k - 1)).abs() > 86_400);
-                        let cls = Cls { a_later: a.later, b_later: b.later, near_limit: a.near_limit || b.near_limit, wide };
+                        let cls = Cls { a_later: a.later, b_later: b.later, fold_x_midnight: a.fold_x_midnight || b.fold_x_midnight, near_limit: a.near_limit || b.near_limit, wide };
                         t.z_pairs.fetch_add(1, Relaxed);
                         k += ck.pair_once(&a.z, &b.z, cls);
                         for &li in &zl {
